@@ -1,5 +1,838 @@
-use crate::common::Ctx;
-pub fn run(_ctx: &Ctx, _replay: Option<&serde_json::Value>) -> i32 {
-    eprintln!("not implemented");
-    2
+//! C10 — fixed precedence table, layout insensitivity, all plain names usable.
+
+use crate::common::*;
+use crate::parse::*;
+use crate::tgen::*;
+use blots_core::ast::BinaryOp;
+use serde_json::{Value as J, json};
+
+// ---------------------------------------------------------------------------------------------
+// (a) reference parser for operator chains, built from the property's table only
+
+#[derive(Clone, Copy, PartialEq, Debug)]
+enum Pre {
+    None,
+    Neg,
+    Bang,
+    Not,
+    NegNot,
+    NotNeg,
+    NegNeg,
+}
+
+#[derive(Clone, Copy, PartialEq, Debug)]
+enum Post {
+    None,
+    Fact,
+    Index,
+    Field,
+    Call,
+    FactIndex,
+    IndexFact,
+    CallField,
+}
+
+const PRES: [Pre; 7] = [Pre::None, Pre::Neg, Pre::Bang, Pre::Not, Pre::NegNot, Pre::NotNeg, Pre::NegNeg];
+const POSTS: [Post; 8] = [Post::None, Post::Fact, Post::Index, Post::Field, Post::Call, Post::FactIndex, Post::IndexFact, Post::CallField];
+
+fn pre_text(p: Pre) -> &'static str {
+    match p {
+        Pre::None => "",
+        Pre::Neg => "-",
+        Pre::Bang => "!",
+        Pre::Not => "not ",
+        Pre::NegNot => "-not ",
+        Pre::NotNeg => "not -",
+        Pre::NegNeg => "--",
+    }
+}
+
+fn post_text(p: Post) -> &'static str {
+    match p {
+        Post::None => "",
+        Post::Fact => "!",
+        Post::Index => "[0]",
+        Post::Field => ".k",
+        Post::Call => "(1)",
+        Post::FactIndex => "![0]",
+        Post::IndexFact => "[0]!",
+        Post::CallField => "(1).k",
+    }
+}
+
+/// operand tree: postfix operators apply first (left to right), then prefix operators
+fn operand(name: &str, pre: Pre, post: Post) -> T {
+    let mut t = T::id(name);
+    let apply_post = |t: T, p: &str| -> T {
+        match p {
+            "!" => T::Fact(Box::new(t)),
+            "[0]" => T::Index(Box::new(t), Box::new(T::num(0.0))),
+            ".k" => T::Field(Box::new(t), "k".into()),
+            "(1)" => T::Call(Box::new(t), vec![T::num(1.0)]),
+            _ => unreachable!(),
+        }
+    };
+    let posts: &[&str] = match post {
+        Post::None => &[],
+        Post::Fact => &["!"],
+        Post::Index => &["[0]"],
+        Post::Field => &[".k"],
+        Post::Call => &["(1)"],
+        Post::FactIndex => &["!", "[0]"],
+        Post::IndexFact => &["[0]", "!"],
+        Post::CallField => &["(1)", ".k"],
+    };
+    for p in posts {
+        t = apply_post(t, p);
+    }
+    let pres: &[&str] = match pre {
+        Pre::None => &[],
+        Pre::Neg => &["-"],
+        Pre::Bang => &["!"],
+        Pre::Not => &["not"],
+        Pre::NegNot => &["-", "not"],
+        Pre::NotNeg => &["not", "-"],
+        Pre::NegNeg => &["-", "-"],
+    };
+    for p in pres.iter().rev() {
+        t = match *p {
+            "-" => T::Neg(Box::new(t)),
+            "!" => T::Bang(Box::new(t)),
+            _ => T::NotW(Box::new(t)),
+        };
+    }
+    t
+}
+
+/// Precedence climbing over `operands[0] ops[0] operands[1] ...` using `spec_level`.
+fn climb(operands: &[T], ops: &[BinaryOp]) -> T {
+    fn go(pos: &mut usize, operands: &[T], ops: &[BinaryOp], min_level: u8) -> T {
+        let mut lhs = operands[*pos].clone();
+        while *pos < ops.len() {
+            let op = ops[*pos];
+            let (lvl, right) = spec_level(op);
+            if lvl < min_level {
+                break;
+            }
+            *pos += 1;
+            let next_min = if right { lvl } else { lvl + 1 };
+            let rhs = go(pos, operands, ops, next_min);
+            lhs = T::bin(op, lhs, rhs);
+        }
+        lhs
+    }
+    let mut pos = 0;
+    go(&mut pos, operands, ops, 0)
+}
+
+fn chain_text(operand_texts: &[String], ops: &[BinaryOp]) -> String {
+    let mut s = operand_texts[0].clone();
+    for (i, op) in ops.iter().enumerate() {
+        s.push(' ');
+        s.push_str(op_text(*op));
+        s.push(' ');
+        s.push_str(&operand_texts[i + 1]);
+    }
+    s
+}
+
+fn check_text(ctx: &Ctx, kind: &str, class: &str, text: &str, expected: &T) {
+    ctx.count(1);
+    let want = expected.to_expr();
+    let got = parse_one(text);
+    let full = expected.full();
+    let got_full = parse_one(&full);
+    let ok = matches!(&got, Ok(e) if *e == want);
+    let ok_full = matches!(&got_full, Ok(e) if *e == want);
+    if !ok {
+        ctx.violation(Violation {
+            kind: kind.to_string(),
+            class: class.to_string(),
+            input: text.to_string(),
+            expected: expr_canon(&want),
+            observed: match &got {
+                Ok(e) => expr_canon(e),
+                Err(m) => format!("parse failure: {}", truncate(m, 160)),
+            },
+            case: json!({"text": text, "full": full}),
+        });
+    }
+    if !ok_full {
+        ctx.violation(Violation {
+            kind: format!("{}-parenthesised", kind),
+            class: class.to_string(),
+            input: full.clone(),
+            expected: expr_canon(&want),
+            observed: match &got_full {
+                Ok(e) => expr_canon(e),
+                Err(m) => format!("parse failure: {}", truncate(m, 160)),
+            },
+            case: json!({"text": full, "full": full}),
+        });
+    }
+}
+
+// ---------------------------------------------------------------------------------------------
+// (d) layout renderer with choice sites
+
+#[derive(Clone, Copy, PartialEq, Eq, Debug, Hash)]
+enum Site {
+    SymLeft,
+    SymRight,
+    NatLeft,
+    NatRight,
+    NotAfter,
+    ParenOpen,
+    ParenClose,
+    ListOpen,
+    ListComma,
+    ListClose,
+    RecColonBefore,
+    RecColonAfter,
+    CallOpen,
+    CallComma,
+    CallClose,
+    ArrowBefore,
+    ArrowAfter,
+    LamArgComma,
+    IfAfter,
+    CondGap,
+    AccessOpen,
+    AccessClose,
+    AssignGap,
+    /// redundant parentheses around a sub-term: "" or wrap
+    Redundant,
+}
+
+fn options(s: Site) -> &'static [&'static str] {
+    match s {
+        Site::SymLeft | Site::SymRight => &[" ", "", "  ", "\n", " \n ", " //c\n", "\n\n", "\t"],
+        Site::NatLeft => &[" ", "\n", " \n ", " //c\n ", "  "],
+        Site::NatRight => &[" ", "  ", "\t"],
+        Site::NotAfter => &[" ", "  ", "\t"],
+        Site::ParenOpen | Site::ParenClose => &["", " ", "\n", " //c\n", "\n  "],
+        Site::ListOpen => &["", " ", "\n", "\n  ", " //c\n", "\n//c\n"],
+        Site::ListComma => &[" ", "", "\n", "\n  ", " //c\n", "  "],
+        Site::ListClose => &["", " ", "\n", ",", ", ", ",\n", "\n//c\n", ", //c\n"],
+        Site::RecColonBefore => &["", " "],
+        Site::RecColonAfter => &[" ", "", "\n", " //c\n", "  "],
+        Site::CallOpen => &["", " ", "\n", " //c\n", "\n  "],
+        Site::CallComma => &[" ", "", "\n", " //c\n", "  "],
+        Site::CallClose => &["", " ", "\n", ",\n", ", \n", ", //c\n"],
+        Site::ArrowBefore => &[" ", "", "  "],
+        Site::ArrowAfter => &[" ", "", "\n", "\n  ", " //c\n", "  "],
+        Site::LamArgComma => &[" ", "", "\n", "  "],
+        Site::IfAfter => &[" ", "  ", "\t"],
+        Site::CondGap => &[" ", "\n", "\n  ", " //c\n", "  "],
+        Site::AccessOpen | Site::AccessClose => &["", "\n", "//c\n", "\n\n"],
+        Site::AssignGap => &[" ", "", "  "],
+        Site::Redundant => &["", "(", "(("],
+    }
+}
+
+struct Layout<'a> {
+    /// chosen option index per site (by visit order); default 0
+    choice: &'a dyn Fn(usize, Site) -> usize,
+    sites: Vec<Site>,
+    out: String,
+}
+
+impl<'a> Layout<'a> {
+    fn gap(&mut self, s: Site) {
+        let idx = self.sites.len();
+        self.sites.push(s);
+        let opts = options(s);
+        let k = (self.choice)(idx, s) % opts.len();
+        self.out.push_str(opts[k]);
+    }
+
+    fn redundant(&mut self, f: impl FnOnce(&mut Self)) {
+        let idx = self.sites.len();
+        self.sites.push(Site::Redundant);
+        let k = (self.choice)(idx, Site::Redundant) % 3;
+        for _ in 0..k {
+            self.out.push('(');
+        }
+        f(self);
+        for _ in 0..k {
+            self.out.push(')');
+        }
+    }
+
+    /// operand position: compound operands are parenthesised (with layout inside the parens)
+    fn operand(&mut self, t: &T) {
+        if t.is_leaf() {
+            self.redundant(|s| s.expr(t));
+        } else {
+            self.out.push('(');
+            self.gap(Site::ParenOpen);
+            self.expr(t);
+            self.gap(Site::ParenClose);
+            self.out.push(')');
+        }
+    }
+
+    fn items(&mut self, items: &[T], comma: Site) {
+        for (i, it) in items.iter().enumerate() {
+            if i > 0 {
+                self.out.push(',');
+                self.gap(comma);
+            }
+            match it {
+                T::Spread(x) => {
+                    self.out.push_str("...");
+                    self.operand(x);
+                }
+                o => self.operand(o),
+            }
+        }
+    }
+
+    fn expr(&mut self, t: &T) {
+        match t {
+            T::Num(_) | T::Str(_) | T::Bool(_) | T::Null | T::Id(_) | T::Inp(_) => self.out.push_str(&t.full()),
+            T::List(items) => {
+                self.out.push('[');
+                if !items.is_empty() {
+                    self.gap(Site::ListOpen);
+                    self.items(items, Site::ListComma);
+                    self.gap(Site::ListClose);
+                }
+                self.out.push(']');
+            }
+            T::Rec(es) => {
+                self.out.push('{');
+                if !es.is_empty() {
+                    self.gap(Site::ListOpen);
+                    for (i, e) in es.iter().enumerate() {
+                        if i > 0 {
+                            self.out.push(',');
+                            self.gap(Site::ListComma);
+                        }
+                        match e {
+                            RE::Kv(k, v) => {
+                                self.out.push_str(k);
+                                self.gap(Site::RecColonBefore);
+                                self.out.push(':');
+                                self.gap(Site::RecColonAfter);
+                                self.operand(v);
+                            }
+                            RE::Qkv(k, v) => {
+                                self.out.push_str(&format!("\"{}\"", k));
+                                self.gap(Site::RecColonBefore);
+                                self.out.push(':');
+                                self.gap(Site::RecColonAfter);
+                                self.operand(v);
+                            }
+                            RE::Dyn(k, v) => {
+                                self.out.push('[');
+                                self.operand(k);
+                                self.out.push(']');
+                                self.gap(Site::RecColonBefore);
+                                self.out.push(':');
+                                self.gap(Site::RecColonAfter);
+                                self.operand(v);
+                            }
+                            RE::Short(n) => self.out.push_str(n),
+                            RE::Spread(v) => {
+                                self.out.push_str("...");
+                                self.operand(v);
+                            }
+                        }
+                    }
+                    self.gap(Site::ListClose);
+                }
+                self.out.push('}');
+            }
+            T::Lam(args, body) => {
+                self.out.push('(');
+                for (i, a) in args.iter().enumerate() {
+                    if i > 0 {
+                        self.out.push(',');
+                        self.gap(Site::LamArgComma);
+                    }
+                    self.out.push_str(&match a {
+                        LArg::Req(n) => n.clone(),
+                        LArg::Opt(n) => format!("{}?", n),
+                        LArg::Rest(n) => format!("...{}", n),
+                    });
+                }
+                self.out.push(')');
+                self.gap(Site::ArrowBefore);
+                self.out.push_str("=>");
+                self.gap(Site::ArrowAfter);
+                self.operand(body);
+            }
+            T::Cond(c, a, b) => {
+                self.out.push_str("if");
+                self.gap(Site::IfAfter);
+                self.operand(c);
+                self.gap(Site::CondGap);
+                self.out.push_str("then");
+                self.gap(Site::CondGap);
+                self.operand(a);
+                self.gap(Site::CondGap);
+                self.out.push_str("else");
+                self.gap(Site::CondGap);
+                self.operand(b);
+            }
+            T::Do(stmts, ret) => {
+                self.out.push_str("do {\n");
+                for s in stmts {
+                    self.out.push_str("  ");
+                    self.expr(s);
+                    self.out.push('\n');
+                }
+                self.out.push_str("  return ");
+                self.operand(ret);
+                self.out.push_str("\n}");
+            }
+            T::Assign(n, v) => {
+                self.out.push_str(n);
+                self.gap(Site::AssignGap);
+                self.out.push('=');
+                self.gap(Site::AssignGap);
+                self.operand(v);
+            }
+            T::Call(f, args) => {
+                self.operand(f);
+                self.out.push('(');
+                if !args.is_empty() {
+                    self.gap(Site::CallOpen);
+                    self.items(args, Site::CallComma);
+                    self.gap(Site::CallClose);
+                }
+                self.out.push(')');
+            }
+            T::Index(a, i) => {
+                self.operand(a);
+                self.out.push('[');
+                self.gap(Site::AccessOpen);
+                self.operand(i);
+                self.gap(Site::AccessClose);
+                self.out.push(']');
+            }
+            T::Field(a, f) => {
+                self.operand(a);
+                self.out.push('.');
+                self.out.push_str(f);
+            }
+            T::Bin(op, a, b) => {
+                let natural = matches!(op, BinaryOp::NaturalAnd | BinaryOp::NaturalOr | BinaryOp::Via | BinaryOp::Into | BinaryOp::Where);
+                self.operand(a);
+                self.gap(if natural { Site::NatLeft } else { Site::SymLeft });
+                self.out.push_str(op_text(*op));
+                self.gap(if natural { Site::NatRight } else { Site::SymRight });
+                self.operand(b);
+            }
+            T::Neg(a) => {
+                self.out.push('-');
+                self.operand(a);
+            }
+            T::Bang(a) => {
+                self.out.push('!');
+                self.operand(a);
+            }
+            T::NotW(a) => {
+                self.out.push_str("not");
+                self.gap(Site::NotAfter);
+                self.operand(a);
+            }
+            T::Fact(a) => {
+                self.operand(a);
+                self.out.push('!');
+            }
+            T::Spread(a) => {
+                self.out.push_str("...");
+                self.operand(a);
+            }
+            T::Output(a) => {
+                self.out.push_str("output ");
+                self.expr(a);
+            }
+        }
+    }
+}
+
+fn render(t: &T, choice: &dyn Fn(usize, Site) -> usize) -> (String, Vec<Site>) {
+    let mut l = Layout { choice, sites: vec![], out: String::new() };
+    l.expr(t);
+    (l.out, l.sites)
+}
+
+fn layout_checks(ctx: &Ctx, t: &T, thorough: bool) {
+    let want = t.to_expr();
+    let (base, sites) = render(t, &|_, _| 0);
+    let check = |text: &str, what: String| {
+        ctx.count(1);
+        let got = parse_one(text);
+        if !matches!(&got, Ok(e) if *e == want) {
+            ctx.violation(Violation {
+                kind: "layout".into(),
+                class: what.clone(),
+                input: text.to_string(),
+                expected: format!("same tree as `{}`: {}", base, expr_canon(&want)),
+                observed: match &got {
+                    Ok(e) => expr_canon(e),
+                    Err(m) => format!("parse failure: {}", truncate(m, 200)),
+                },
+                case: json!({"text": text, "base": base}),
+            });
+        }
+    };
+    check(&base, "base".into());
+    ctx.nontrivial(&base);
+    // single variations: every option at every site
+    for (i, s) in sites.iter().enumerate() {
+        for k in 1..options(*s).len() {
+            let (text, _) = render(t, &|j, _| if j == i { k } else { 0 });
+            check(&text, format!("{:?}:{:?}", s, options(*s)[k]));
+            ctx.outcome("layout-single");
+        }
+    }
+    // every pair of sites, two non-default options each (all options when thorough)
+    for i in 0..sites.len() {
+        for j in (i + 1)..sites.len() {
+            let ki_max = if thorough { options(sites[i]).len() } else { 3.min(options(sites[i]).len()) };
+            let kj_max = if thorough { options(sites[j]).len() } else { 3.min(options(sites[j]).len()) };
+            for ki in 1..ki_max {
+                for kj in 1..kj_max {
+                    let (text, _) = render(t, &|x, _| if x == i { ki } else if x == j { kj } else { 0 });
+                    check(&text, format!("{:?}+{:?}", sites[i], sites[j]));
+                    ctx.outcome("layout-pair");
+                }
+            }
+        }
+    }
+    // all at once: option k (cyclically) at every site
+    for k in 1..8 {
+        let (text, _) = render(t, &|x, _| k + x % 2);
+        check(&text, format!("all-at-once-{}", k));
+        ctx.outcome("layout-all");
+    }
+    // end-of-line comment after the statement, surrounding blank lines and comment lines
+    for (pre, post) in [("", " // trailing"), ("// leading\n", ""), ("\n\n", "\n\n"), ("", "  "), ("// a\n// b\n", "\n// c")] {
+        check(&format!("{}{}{}", pre, base, post), "statement-surroundings".into());
+    }
+}
+
+// ---------------------------------------------------------------------------------------------
+// (e) identifiers
+
+const RESERVED_WORDS: [&str; 12] = ["if", "then", "else", "true", "false", "null", "and", "or", "not", "do", "return", "output"];
+
+fn names(thorough: bool) -> Vec<String> {
+    let mut v: Vec<String> = vec![];
+    let chars: Vec<char> = ('a'..='z').chain('A'..='Z').chain('0'..='9').chain(['_']).collect();
+    for w in RESERVED_WORDS {
+        for c in &chars {
+            v.push(format!("{}{}", w, c));
+            if !c.is_ascii_digit() {
+                v.push(format!("{}{}", c, w));
+            }
+        }
+        v.push(format!("{}_{}", w, w));
+        v.push(format!("{}{}", w, w));
+        v.push(w.to_uppercase());
+        let mut cs = w.chars();
+        let f = cs.next().unwrap();
+        v.push(format!("{}{}", f.to_uppercase(), cs.as_str()));
+        for w2 in RESERVED_WORDS {
+            if thorough || w2.len() <= 3 {
+                v.push(format!("{}{}", w, w2));
+                v.push(format!("{}_{}", w, w2));
+            }
+        }
+    }
+    for s in [
+        "trueish", "falsey", "null_count", "nullable", "android", "iffy", "nothing", "orange", "done", "returned", "outputs", "thenceforth",
+        "elsewhere", "notation", "order", "dot", "x", "_", "__", "_1", "a1", "A", "x_y_z", "via_x", "viaduct", "into_it", "wherever", "infx",
+        "input", "constant", "e", "pi",
+    ] {
+        v.push(s.to_string());
+    }
+    v.sort();
+    v.dedup();
+    // names that are not plain bindable names by C03 (built-ins, inputs, constants, inf/infinity)
+    v.retain(|n| {
+        !RESERVED_WORDS.contains(&n.as_str())
+            && blots_core::functions::BuiltInFunction::from_ident(n).is_none()
+            && !["inputs", "constants", "inf", "infinity", "via", "into", "where"].contains(&n.as_str())
+    });
+    v
+}
+
+fn name_class(n: &str) -> String {
+    for w in RESERVED_WORDS {
+        if n.starts_with(w) {
+            return format!("prefix:{}", w);
+        }
+    }
+    for w in RESERVED_WORDS {
+        if n.ends_with(w) {
+            return format!("suffix:{}", w);
+        }
+    }
+    "other".into()
+}
+
+fn identifier_checks(ctx: &Ctx, n: &str) {
+    let seven = num_repr(7.0);
+    let contexts: Vec<(String, String, String)> = vec![
+        // (binding, expression, expected canonical value)
+        (format!("{} = 7", n), format!("{} + 1", n), num_repr(8.0)),
+        (format!("{} = 7", n), format!("1 + {}", n), num_repr(8.0)),
+        (format!("{} = 7", n), format!("[{}]", n), format!("[{}]", seven)),
+        (format!("{} = 7", n), format!("abs({})", n), seven.clone()),
+        (format!("{} = 7", n), format!("(() => {})()", n), seven.clone()),
+        (format!("{} = 7", n), format!("{{k: {}}}.k", n), seven.clone()),
+        (format!("{} = 7", n), format!("{{{}}}", n), format!("{{{:?}: {}}}", n, seven)),
+        (format!("{} = 7", n), format!("if true then {} else 0", n), seven.clone()),
+        (format!("{} = 7", n), format!("if false then 0 else {}", n), seven.clone()),
+        (format!("{} = 7", n), format!("if {} == 7 then 1 else 0", n), num_repr(1.0)),
+        (format!("{} = 7", n), format!("do {{ t = {}; return t }}", n), seven.clone()),
+        (format!("{} = 7", n), format!("do {{\n  return {}\n}}", n), seven.clone()),
+        (format!("{} = 7", n), format!("[5, 6, 7, 8, 9, 10, 11, 12][{}]", n), num_repr(12.0)),
+        (format!("{} = 7", n), format!("[...[{}]]", n), format!("[{}]", seven)),
+        (format!("{} = 7", n), format!("-{}", n), num_repr(-7.0)),
+        (format!("{} = 7", n), format!("{} ?? 0", n), seven.clone()),
+        (format!("{} = 7", n), format!("({})", n), seven.clone()),
+        (format!("{} = 7", n), format!("{}\n+ 1", n), num_repr(8.0)),
+        (format!("{} = true", n), format!("not {}", n), "false".into()),
+        (format!("{} = true", n), format!("!{}", n), "false".into()),
+        (format!("{} = true", n), format!("{} and true", n), "true".into()),
+        (format!("{} = true", n), format!("false or {}", n), "true".into()),
+        (format!("{} = x => x + 1", n), format!("{}(1)", n), num_repr(2.0)),
+        (format!("{} = x => x + 1", n), format!("[1] via {}", n), format!("[{}]", num_repr(2.0))),
+        (format!("{} = {{k: 1}}", n), format!("{}.k", n), num_repr(1.0)),
+        (format!("{} = [4]", n), format!("{}[0]", n), num_repr(4.0)),
+        (format!("{} = [4]", n), format!("[...{}]", n), format!("[{}]", num_repr(4.0))),
+        ("zz = 0".into(), format!("(({}) => {})(3)", n, n), num_repr(3.0)),
+        ("zz = 0".into(), format!("(({}?) => {})()", n, n), "null".into()),
+        ("zz = 0".into(), format!("((...{}) => {})(1)", n, n), format!("[{}]", num_repr(1.0))),
+        ("zz = 0".into(), format!("{{{}: 1}}.{}", n, n), num_repr(1.0)),
+        ("zz = 0".into(), format!("do {{ {} = 2; return {} }}", n, n), num_repr(2.0)),
+        (format!("output {} = 7", n), format!("{}", n), seven.clone()),
+    ];
+    for (bind, expr, expected) in contexts {
+        let mut s = Session::with_inputs(&[(n, json!(5))]);
+        let b = s.run(&bind);
+        ctx.count(1);
+        ctx.outcome("identifier-context");
+        if !b.is_ok() {
+            ctx.violation(Violation {
+                kind: "identifier-bind".into(),
+                class: name_class(n),
+                input: bind.clone(),
+                expected: "binding succeeds".into(),
+                observed: format!("{:?}", b),
+                case: json!({"bind": bind, "expr": expr}),
+            });
+            continue;
+        }
+        let o = s.run(&expr);
+        if o != Outcome::Ok(expected.clone()) {
+            ctx.violation(Violation {
+                kind: "identifier-reference".into(),
+                class: name_class(n),
+                input: format!("{} ;; {}", bind, expr),
+                expected,
+                observed: format!("{:?}", o),
+                case: json!({"bind": bind, "expr": expr}),
+            });
+        }
+    }
+    // #name input reference
+    let mut s = Session::with_inputs(&[(n, json!(5))]);
+    let o = s.run(&format!("#{} + 0", n));
+    ctx.count(1);
+    if o != Outcome::Ok(num_repr(5.0)) {
+        ctx.violation(Violation {
+            kind: "identifier-input-reference".into(),
+            class: name_class(n),
+            input: format!("#{} + 0", n),
+            expected: num_repr(5.0),
+            observed: format!("{:?}", o),
+            case: json!({"bind": "zz = 0", "expr": format!("#{} + 0", n)}),
+        });
+    }
+    ctx.nontrivial(&format!("name:{}", n));
+}
+
+pub fn run(ctx: &Ctx, replay: Option<&J>) -> i32 {
+    if let Some(r) = replay {
+        let c = &r["case"];
+        if let Some(text) = c["text"].as_str() {
+            let base = c["base"].as_str().or(c["full"].as_str()).unwrap_or(text);
+            let a = parse_one(text);
+            let b = parse_one(base);
+            println!("text: {:?}\n  -> {}\nreference: {:?}\n  -> {}", text, a.as_ref().map(expr_canon).unwrap_or_else(|e| e.clone()), base, b.as_ref().map(expr_canon).unwrap_or_else(|e| e.clone()));
+            let same = matches!((&a, &b), (Ok(x), Ok(y)) if x == y);
+            if !same {
+                println!("VIOLATION property=C10 replay=<replayed>");
+                return 1;
+            }
+            return 0;
+        }
+        let bind = c["bind"].as_str().unwrap_or("");
+        let expr = c["expr"].as_str().unwrap_or("");
+        let mut s = Session::new();
+        println!("{} -> {:?}\n{} -> {:?}\nexpected {}", bind, s.run(bind), expr, s.run(expr), r["expected"]);
+        return 1;
+    }
+    let thorough = !ctx.quick();
+    let names_abc = ["a", "b", "c", "d", "e"];
+
+    // ---- (a) pairs, triples, quadruples
+    let plain: Vec<T> = names_abc.iter().map(|n| T::id(n)).collect();
+    let plain_txt: Vec<String> = names_abc.iter().map(|n| n.to_string()).collect();
+    for &o1 in &ALL_BINOPS {
+        for &o2 in &ALL_BINOPS {
+            let ops = [o1, o2];
+            let t = climb(&plain[..3], &ops);
+            check_text(ctx, "precedence-pair", &format!("{} {}", op_text(o1), op_text(o2)), &chain_text(&plain_txt[..3], &ops), &t);
+            ctx.nontrivial(&format!("pair:{:?}:{:?}", o1, o2));
+            ctx.outcome("pair");
+        }
+    }
+    let triple_ops: Vec<BinaryOp> = ALL_BINOPS.to_vec();
+    let mut triples = vec![];
+    for &o1 in &triple_ops {
+        for &o2 in &triple_ops {
+            for &o3 in &triple_ops {
+                triples.push([o1, o2, o3]);
+            }
+        }
+    }
+    par_for(triples.len(), |i| {
+        let ops = triples[i];
+        let t = climb(&plain[..4], &ops);
+        check_text(ctx, "precedence-triple", &format!("{} {} {}", op_text(ops[0]), op_text(ops[1]), op_text(ops[2])), &chain_text(&plain_txt[..4], &ops), &t);
+        ctx.outcome("triple");
+    });
+    ctx.nontrivial_many((0..triples.len() as u64).map(|i| fnv(&format!("triple{}", i))));
+    let reps = [BinaryOp::NaturalAnd, BinaryOp::Via, BinaryOp::Equal, BinaryOp::Add, BinaryOp::Subtract, BinaryOp::Multiply, BinaryOp::Power, BinaryOp::Coalesce, BinaryOp::DotLess];
+    let mut quads = vec![];
+    for &a in &reps {
+        for &b in &reps {
+            for &c in &reps {
+                for &d in &reps {
+                    quads.push([a, b, c, d]);
+                }
+            }
+        }
+    }
+    par_for(quads.len(), |i| {
+        let ops = quads[i];
+        let t = climb(&plain[..5], &ops);
+        check_text(ctx, "precedence-quad", "quad", &chain_text(&plain_txt[..5], &ops), &t);
+        ctx.outcome("quad");
+    });
+    // ---- (b) prefix / postfix around every binary operator
+    let mut combos = vec![];
+    for &op in &ALL_BINOPS {
+        for p1 in PRES {
+            for q1 in POSTS {
+                for p2 in PRES {
+                    for q2 in POSTS {
+                        combos.push((op, p1, q1, p2, q2));
+                    }
+                }
+            }
+        }
+    }
+    let step = if thorough { 1 } else { 3 };
+    let combos: Vec<_> = combos.into_iter().step_by(step).collect();
+    par_for(combos.len(), |i| {
+        let (op, p1, q1, p2, q2) = combos[i];
+        let l = operand("a", p1, q1);
+        let r = operand("b", p2, q2);
+        let t = T::bin(op, l, r);
+        let text = format!("{}a{} {} {}b{}", pre_text(p1), post_text(q1), op_text(op), pre_text(p2), post_text(q2));
+        check_text(ctx, "prefix-postfix", &format!("{:?}/{:?} {} {:?}/{:?}", p1, q1, op_text(op), p2, q2), &text, &t);
+        ctx.outcome("prefix-postfix");
+    });
+    ctx.nontrivial_many((0..combos.len() as u64).map(|i| fnv(&format!("combo{}", i))));
+    // prefix over a binary chain: -a ^ b, not a and b, ...
+    for p in PRES {
+        for q in POSTS {
+            for &o1 in &ALL_BINOPS {
+                for &o2 in &[BinaryOp::Power, BinaryOp::Coalesce, BinaryOp::Add, BinaryOp::NaturalAnd] {
+                    let ops = [o1, o2];
+                    let operands = vec![operand("a", p, Post::None), operand("b", Pre::None, q), operand("c", p, q)];
+                    let texts = vec![format!("{}a", pre_text(p)), format!("b{}", post_text(q)), format!("{}c{}", pre_text(p), post_text(q))];
+                    let t = climb(&operands, &ops);
+                    check_text(ctx, "prefix-postfix-chain", "chain", &chain_text(&texts, &ops), &t);
+                }
+            }
+        }
+    }
+
+    // ---- word and symbol spellings evaluate identically
+    for (w, s) in [("and", "&&"), ("or", "||")] {
+        for a in ["true", "false", "1", "null", "[true, false]"] {
+            for b in ["true", "false", "1", "null", "[false, true]"] {
+                let o1 = eval_fresh(&format!("{} {} {}", a, w, b));
+                let o2 = eval_fresh(&format!("{} {} {}", a, s, b));
+                ctx.count(2);
+                ctx.outcome("spelling");
+                if o1.cmp_key() != o2.cmp_key() {
+                    ctx.violation(Violation { kind: "spelling".into(), class: w.into(), input: format!("{} {} {}", a, w, b), expected: o2.cmp_key(), observed: o1.cmp_key(), case: json!({"bind": "zz = 0", "expr": format!("{} {} {}", a, w, b)}) });
+                }
+            }
+        }
+    }
+    for a in ["true", "false", "1", "null", "[true]"] {
+        let o1 = eval_fresh(&format!("not {}", a));
+        let o2 = eval_fresh(&format!("!{}", a));
+        ctx.count(2);
+        if o1.cmp_key() != o2.cmp_key() {
+            ctx.violation(Violation { kind: "spelling".into(), class: "not".into(), input: format!("not {}", a), expected: o2.cmp_key(), observed: o1.cmp_key(), case: json!({"bind": "zz = 0", "expr": format!("not {}", a)}) });
+        }
+    }
+
+    // ---- (d) layout
+    let mut stats = GenStats::default();
+    let kinds = all_kinds();
+    let mut bases: Vec<T> = vec![];
+    {
+        let mut supply = LeafSupply::new();
+        for k in &kinds {
+            if k.is_expr {
+                bases.push(with_leaves(k, &mut supply));
+                supply = LeafSupply::new();
+            }
+        }
+    }
+    let two = if thorough { single_slot(&kinds, &kinds, &mut stats) } else { single_slot(&representative_kinds(), &representative_kinds(), &mut stats) };
+    bases.extend(two);
+    // literal leaves with interesting tokens
+    bases.push(T::bin(BinaryOp::Add, T::num(1.5), T::str("a b")));
+    bases.push(T::bin(BinaryOp::Subtract, T::id("a"), T::Neg(Box::new(T::id("b")))));
+    bases.push(T::List(vec![T::str("//not a comment"), T::str(", ]")]));
+    par_for(bases.len(), |i| layout_checks(ctx, &bases[i], thorough));
+    ctx.set("layout_bases", json!(bases.len()));
+    ctx.set("generator", json!({"states": stats.states, "transitions": stats.transitions, "complete": stats.complete}));
+
+    // ---- (e) identifiers
+    let ns = names(thorough);
+    par_for(ns.len(), |i| identifier_checks(ctx, &ns[i]));
+    ctx.set("names", json!(ns.len()));
+
+    ctx.sample(json!({"minimal": "a + b * c ^ d ?? e", "reference": climb(&plain[..5], &[BinaryOp::Add, BinaryOp::Multiply, BinaryOp::Power, BinaryOp::Coalesce]).full()}));
+    ctx.sample(json!({"minimal": "-a! ^ not b.k", "reference": T::bin(BinaryOp::Power, operand("a", Pre::Neg, Post::Fact), operand("b", Pre::Not, Post::Field)).full()}));
+    ctx.sample(json!({"layout": render(&bases[bases.len() / 2], &|x, _| 1 + x % 2).0}));
+    ctx.sample(json!({"identifier": "trueish = 7 ;; if true then trueish else 0"}));
+    ctx.require_outcome("pair", 676);
+    ctx.require_outcome("triple", 17_576);
+    ctx.require_outcome("layout-single", 1000);
+    ctx.require_outcome("layout-pair", 1000);
+    ctx.require_outcome("identifier-context", 10_000);
+    finish(
+        ctx,
+        "exploration",
+        "all 676 ordered pairs and 17576 triples of the 26 binary operators and 6561 quadruples over 9 level representatives, every prefix x postfix combination on both operands of every operator, each compared (minimal text and reference-parenthesised text) with a precedence-climbing reference built from the property's table; layout: every option at every layout site singly, every pair of sites, and all at once, over every node kind and every parent/child kind spine; identifiers: every reserved word x every one-character prefix/suffix plus compounds, each bound and referenced in 34 contexts; distinct = distinct operator sequences / base programs / names",
+        true,
+        None,
+    )
 }
